@@ -30,7 +30,16 @@ BUILD = VERIF / "build"
 EVIDENCE = VERIF / "evidence"
 REPO = Path(os.environ.get("VERIF_REPO", "/repo")).resolve()
 PY = "/venv/bin/python"
-NPROC = int(os.environ.get("VERIF_JOBS", "16"))
+def _default_jobs():
+    """16 parallel coqc shards on an idle machine; fewer when the machine is already busy (several checks at once)."""
+    try:
+        load = os.getloadavg()[0]
+    except OSError:
+        load = 0.0
+    return 16 if load < 12 else (8 if load < 32 else 5)
+
+
+NPROC = int(os.environ.get("VERIF_JOBS", _default_jobs()))
 COQ_ARGS = ["-Q", str(THEORIES), "Typhon", "-Q", str(GEN), "TyphonGen"]
 
 FORBIDDEN = re.compile(
